@@ -78,6 +78,16 @@ CLAIMED["C33"] = dict(
          "Not covered: phonon systems (phonon_freq_from_square applied to corners) and band selection are taken as frame conditions.",
     note=TB + "; axioms: ph(x)ph(y)=ph(x+y), 1/ph(x)=ph(-x), 2*pi*n computed in floats is the exact multiple; R_to_k contract (C02): sum_R X[R] ph(R.k) with the rvec's own R list; eigvalsh external")
 
+CLAIMED["C18"] = dict(
+    text="read_WCC_WT_format (real text): UNBOUNDED proof over the number of Wannier functions n (lambda arrays, slice assignments with "
+         "symbolic extents) that for the writer's layout (even rows then odd rows) the returned array equals the original row by row, "
+         "including the length agreement of both slice assignments (this is the obligation the odd-n defect failed). write_WCC_WT_format: "
+         "the layout assumed there is proved per shape n = 1..7. The npz-directory, _tb.dat and _hr.dat + centre-file round trips of whole "
+         "systems are carried by a bounded stand-in only: real files of random Hermitian systems with num_wann = 1,2,5 (quick) / 1..6 "
+         "(thorough), comparing lattice, centres, Ham(R) and band energies at random k (labelled bounded, not counted as proved). "
+         "Not covered deductively: index orders and degeneracy factors of the _tb.dat/_hr.dat writers/readers, PointGroup serialisation.",
+    note=TB + "; text model: float(token) returns the number written to printed precision; np.savez/np.load value round trip")
+
 NOT_APPLICABLE = {
     "C20": "real-space symmetrisation is a data-dependent floating-point orbit search over irrep objects; its postcondition is only statable through an eigen-solver, no discrete/algebraic kernel is left once externals are abstracted (DESIGN section 7)",
     "C21": "rotation matrices are produced inside sympy (polynomial expansion + evalf); orthogonality/composition live in that CAS computation, outside any contract this engine can generate VCs for (DESIGN section 7)",
